@@ -20,6 +20,7 @@ import vlib
 import translate_faults
 
 LEVEL = "proof"
+EXTRA_PROPERTY_FILES = ["C20_load"]     # the mesh readers reject element attributes that name no label (LoadMesh.v)
 COQ_MODULES = ["Faults", "gen/FaultTable", "FaultExceptions"]
 ASSUMPTIONS = [
     "the fault table is extracted from the C++ sources by regular expressions over a fixed list of anchors "
@@ -56,6 +57,8 @@ def regen(ctx):
     vlib.write_if_changed(GEN, text)
     del _ROWS[:]
     _ROWS.extend(rows)
+    from props import xload
+    xload.regen(ctx)          # gen/LoadConsts.v (error codes of LoadMesh) for Properties_C20_load.v
 
 
 # ------------------------------------------------------------------- problem-file variants ----
